@@ -1688,6 +1688,10 @@ class SpaceUpdater(SharedSpaceOperations):
         for n in nx.descendants(self._graph, node):
             self._graph.get_mro(n)
 
+        # The new space has no members yet: only those of its bases can clash
+        self._check_name_conflict(
+            self._graph.get_mro(node)[1:], refs or ())
+
         if container is None:
             container = parent._named_spaces
 
@@ -1719,6 +1723,26 @@ class SpaceUpdater(SharedSpaceOperations):
 
         return space
 
+    def _check_name_conflict(self, mro, refs=()):
+        """Check name conflict between spaces, cells, refs along ``mro``"""
+        members = {}
+        for attr in ["spaces", "cells", "refs"]:
+            namechain = []
+            for sname in mro:
+                space = self._graph.to_space(sname)
+                namechain.append(set(getattr(space, attr).keys()))
+            members[attr] = set().union(*namechain)
+        members["refs"].update(refs)
+
+        conflict = set()
+        kinds = list(members.values())
+        while kinds:
+            names = kinds.pop()
+            for others in kinds:
+                conflict |= names & others
+        if conflict:
+            raise NameError("name conflict: %s" % conflict)
+
     def add_bases(self, space, bases):
         """Add bases to space in graph
         """
@@ -1748,25 +1772,7 @@ class SpaceUpdater(SharedSpaceOperations):
                 {node},
                 nx.descendants(self._graph, node)):
 
-            mro = self._graph.get_mro(desc)
-
-            # Check name conflict between spaces, cells, refs
-            members = {}
-            for attr in ["spaces", "cells", "refs"]:
-                namechain = []
-                for sname in mro:
-                    space = self._graph.to_space(sname)
-                    namechain.append(set(getattr(space, attr).keys()))
-                members[attr] = set().union(*namechain)
-
-            conflict = set()
-            kinds = list(members.values())
-            while kinds:
-                names = kinds.pop()
-                for others in kinds:
-                    conflict |= names & others
-            if conflict:
-                raise NameError("name conflict: %s" % conflict)
+            self._check_name_conflict(self._graph.get_mro(desc))
 
         self._instructions.append(
             Instruction(self._update_derived_space, (node,)))
